@@ -744,6 +744,12 @@ func c05Run(r *core.Run, idx int, rng *rand.Rand) {
 	c.Node = c.Req.Node()
 	if rng.Intn(3) > 0 {
 		c.HasRelay, c.Relay = true, "state-"+plainString(rng, 8)
+		if rng.Intn(4) == 0 {
+			// values a storage layer may not like (NUL, bytes that are no UTF-8, controls, blanks at the ends, characters
+			// with a meaning in URLs): what was signed is what has to be acted on, byte for byte
+			c.Relay = []string{"st\x00ate", "\x00", "st\xffate\xfe", "\xc3(", "caf\xe9", " padded ", "\ttab\r\n", "a+b&c=d%25", "désirée-€-𝄞", "trailing\n", "\ufeffbom", "a\u2028b"}[rng.Intn(12)] + plainString(rng, 3)
+			r.Count("relay_states_with_unusual_bytes", 1)
+		}
 	}
 	c.Labels = []string{mut.Name}
 	mut.Apply(c)
